@@ -10,6 +10,8 @@ import Driver.C19
 import Driver.C05
 import Driver.C02
 import Driver.C06
+import Driver.C12
+import Driver.C20
 import Driver.C16
 import Driver.C17
 /-! Line-protocol driver: one op per line on stdin (`<Cxx> <op> <args…>`), one answer per line. -/
@@ -29,6 +31,8 @@ def dispatch (line : String) : String :=
   | "C05" :: rest => Driver.C05.handle rest
   | "C02" :: rest => Driver.C02.handle rest
   | "C06" :: rest => Driver.C06.handle rest
+  | "C12" :: rest => Driver.C12.handle rest
+  | "C20" :: rest => Driver.C20.handle rest
   | "C16" :: rest => Driver.C16.handle rest
   | "C17" :: rest => Driver.C17.handle rest
   | _ => "bad-op"
